@@ -58,14 +58,14 @@ def build_algebra_from_rules(rule_kinds):
 
 def build_algebra(impls):
     """impls: [(self_full, identity_expr)] -> (Ty datatype, ident function definition, notes). Unknown shapes -> CheckInconclusive"""
-    Ty = z3.Datatype('Ty')
+    Ty = z3.Datatype('TyScan')
     Ty.declare('Leaf', ('leaf_id', z3.IntSort()))
     Ty.declare('Unit')
     cons = {}
     for s, nm in list(WRAPPERS.items()) + list(UNARY.items()): Ty.declare(nm, ('arg_' + nm, Ty)); cons[s] = nm
     for s, nm in NULLARY.items(): Ty.declare(nm); cons[s] = nm
     Ty = Ty.create()
-    ident = z3.RecFunction('ident', Ty, Ty)
+    ident = z3.RecFunction('ident_scan', Ty, Ty)
     t = z3.Const('t', Ty)
     rules, notes, rule_kinds = {}, [], {}
     for self_full, idexpr in impls:
